@@ -15,6 +15,7 @@ import asyncio
 
 from .. import env, tlc
 from ..sessions import AsyncSession, DEFAULT_SNAPSHOT
+from .. import vloop as _vl
 from ..simnet import SIM_ADDR
 from .c08 import design_cfg
 from .c07 import frame
@@ -30,7 +31,33 @@ def snapshot(s, before_tasks, before_transports):
     }
 
 
-def reset_at(rng, point, net_script=(), settle=0.3):
+def pending_press(s):
+    """the spa stops acknowledging pack commands (it still answers everything else) and a key press is started through
+    the device API that does not await it: the press is waiting for its acknowledgement when the reset / exit comes"""
+    from ..sessions import inner as _inner
+    s.net.s2c = lambda data, now, n: ([] if (_inner(data) or b"").startswith(b"PACKS") else None)
+    f = s.facade
+    if f is None:
+        raise env.MachineryError("pending_press: no facade")
+
+    async def press():
+        dev = (list(f.lights) + list(f.blowers))[0]
+        dev.turn_on()                     # (synchronous API of the awaitable facade: starts a task)
+    s.run(press())
+    s.advance(0.4)
+
+
+def client_observers_on_devices(s, calls):
+    """the client watches individual devices of the facade (water care, reminders, sensors, pumps), not only the facade"""
+    f = s.facade
+    if f is None:
+        raise env.MachineryError("client_observers_on_devices: no facade")
+    for d in [f.water_care, f.reminders_manager] + list(f.sensors)[:3] + list(f.pumps):
+        if d is not None:
+            d.watch(lambda *a, **k: calls.append(1))
+
+
+def reset_at(rng, point, net_script=(), settle=0.3, prepare=None):
     """run to `point`, reset, examine what belonged to the abandoned connection"""
     recs = []
     observer_calls = [0]
@@ -51,6 +78,8 @@ def reset_at(rng, point, net_script=(), settle=0.3):
                 s.advance(max(0, t - loop.time()))
                 s.net.blackhole = mode == "blackout"
         s.advance(max(0, point - loop.time()))
+        if prepare is not None:
+            prepare(s)
         tasks0 = list(loop.tasks)
         transports0 = list(loop.transports)
         old_spa = s.spa
@@ -189,6 +218,11 @@ def own_resets(rng, kind):
         if kind == "client-in-rferr" and event.name == "ERROR_RF_ERROR" and pressed[0] == 0:
             pressed[0] = 1
             await man.async_reset()
+        if kind == "client-in-facade-retry" and event.name == "ERROR_PROTOCOL_RETRY_COUNT_EXCEEDED" \
+                and rec["task"].startswith("FACADE:") and pressed[0] == 0:
+            # the facade's update cycle ran out of retries and the client reacts with a reset - from inside that task
+            pressed[0] = 1
+            await man.async_reset()
         if kind.endswith("-yielding") and event.name in ("RUNNING_SPA_DISCONNECTED", "CLIENT_FACADE_TEARDOWN"):
             # a client handler that really suspends (one trip through the loop) while the reset is carried out by
             # a task of the very connection that is being torn down
@@ -205,6 +239,7 @@ def own_resets(rng, kind):
                 await orig()
             finally:
                 info["t_ret"] = loop.time()
+                info["n_ret"] = next(_vl.SEQ)
                 loop.call_at(loop.time() + 0.3, lambda: info.__setitem__("snap", snapshot(s, info["tasks0"], info["transports0"])))
                 calls.append(info)
 
@@ -212,7 +247,19 @@ def own_resets(rng, kind):
         if not s.wait_connected(60):
             raise env.MachineryError("own_resets: no connection")
         s.advance(3.0)
-        if kind.startswith("recovery"):
+        obs_calls = []
+        if kind == "client-in-facade-retry":
+            from ..sessions import inner as _inner
+            f_ = s.facade
+            for d_ in (f_.water_care, f_.reminders_manager):
+                d_.watch(lambda *a, **k: obs_calls.append(next(_vl.SEQ)))       # (order, not time: all of it is one instant)
+            # the spa keeps answering pings but no longer answers the water-care query
+            s.net.s2c = lambda data, now, n: ([] if (_inner(data) or b"").startswith(b"WCGET") else None)
+            t0_ = loop.time()
+            while not calls and loop.time() - t0_ < 600:
+                s.advance(1.0)
+            s.advance(30.0)
+        elif kind.startswith("recovery"):
             s.net.blackhole = True
             s.advance(200.0)
             s.net.blackhole = False
@@ -225,7 +272,12 @@ def own_resets(rng, kind):
             if "snap" not in c:
                 continue
             recs.append({"kind": "reset", "point": 900000 + i, "within": 300, "by": c["by"], **c["snap"]})
-        if not any(c["by"].startswith("SPA:") for c in calls):
+        if kind == "client-in-facade-retry":
+            for i, c in enumerate(calls):
+                late = [n_ for n_ in obs_calls if n_ > c.get("n_ret", 1 << 62)]
+                recs.append({"kind": "late", "point": 910000 + i, "observer_calls": len(late), "events_delivered": 0,
+                             "by": c["by"]})
+        if not any(c["by"].startswith(("FACADE:" if kind == "client-in-facade-retry" else "SPA:")) for c in calls):
             raise env.MachineryError(f"own_resets({kind}): no reset was issued from a connection task: {[c['by'] for c in calls]}")
     return recs
 
@@ -248,7 +300,7 @@ class tidy_period:
         cfg._GeckoIdleConfig.TASK_TIDY_FREQUENCY_IN_SECONDS, cfg._GeckoActiveConfig.TASK_TIDY_FREQUENCY_IN_SECONDS = self.saved
 
 
-def exit_at(rng, point, blackout=False, yielding=False):
+def exit_at(rng, point, blackout=False, yielding=False, prepare=None):
     """yielding: the client's handle_event really awaits (one loop iteration) in every delivery, so the
     cancellations of __aexit__ and of gather() reach a task at two different awaits"""
     async def on_event(sess, man, event, rec, kw):
@@ -261,6 +313,8 @@ def exit_at(rng, point, blackout=False, yielding=False):
         if blackout:
             s.net.blackhole = True
         s.advance(point)
+        if prepare is not None:
+            prepare(s)
         returned = s.exit_context()
         s.advance(1.0)
         return [{"kind": "exit", "point": int(point * 1000), "returned": returned,
@@ -350,6 +404,8 @@ def run(ctx):
     pts = sorted(set(pts) | set(extra_pts))
     for p in pts:
         recs += reset_at(rng, p)
+    recs += reset_at(rng, 12.0, prepare=pending_press)
+    recs += exit_at(rng, 12.0, prepare=pending_press)
     recs += reset_in_first_pause(rng, 1)
     recs += reset_in_first_pause(rng, 2)
     recs += garbled_handshake(rng, 1, True)
@@ -365,6 +421,7 @@ def run(ctx):
     recs += exit_at(rng, 14.0, blackout=True)
     recs += own_resets(rng, "recovery")
     recs += own_resets(rng, "recovery-yielding")
+    recs += own_resets(rng, "client-in-facade-retry")
     recs += own_resets(rng, "client-in-rferr")
     # the task-tidy period is a configuration constant: other values move the tidy pass relative
     # to task creation (reset and exit after a connection, for a sweep of periods)
